@@ -139,7 +139,7 @@ pub(super) async fn run_pipes_task(handle: &TaskHandle, ctx: TaskRunContext) {
             max_bytes,
         )
         .await;
-        stdout_writer.finish()
+        stdout_writer.finish().await
     });
 
     let stderr_emitter = emitter.clone();
@@ -154,7 +154,7 @@ pub(super) async fn run_pipes_task(handle: &TaskHandle, ctx: TaskRunContext) {
             max_bytes,
         )
         .await;
-        stderr_writer.finish()
+        stderr_writer.finish().await
     });
 
     let mut cancel_reason: Option<String> = None;
